@@ -10,7 +10,8 @@ ID = "C13"
 LEVEL = "model_checking"
 LEVEL_TEXT = ("Explicit enumeration of all IPS record sequences of length <=3 over 9 record kinds (plain 1/3/65535 bytes, run-length "
               "1/4/65535, adjacent to the previous record, offset 0, offset 0xFFFFFE) x 6 deltas (zero, positive, negative, negative "
-              "result, constant expression) x 4 placements of the directive in a host program, assembled by the real assembler; the "
+              "result, constant expression) x 5 placements of the directive in a host program (incl. the same file included twice, and the "
+              "same program assembled twice in one process), assembled by the real assembler; the "
               "writer calls are compared with an independent IPS reader's record list. Every byte-prefix of well-formed files and header "
               "variants must be rejected. The only unit test parses the directive; nothing reads a patch.")
 LEVEL_NOTE = ("Trusted: mc/ref/ips.py (reader and builder). Host output/labels are compared with the same host assembled without the "
@@ -23,12 +24,12 @@ ASSUMPTIONS = ["strict IPS reader mc/ref/ips.py decides well-formedness", "rejec
 
 KINDS = ["p1", "p3", "pmax", "r1", "r4", "rmax", "adj", "off0", "offhi"]
 DELTAS = [("0", 0), ("0x10", 0x10), ("0x200", 0x200), ("0-8", -8), ("NEG", None), ("dd+4", 0x24)]
-PLACES = ["first", "between", "last", "block"]
+PLACES = ["first", "between", "last", "block", "twice"]
 HOST_BLOCK = (0x8000, bytes([0x10, 0x11, 0x34, 0x12, 0x02, 0x80, 0x01, 0x01]))
 
 
 def bound(tier):
-    return ("record sequences of length 1..3 over 9 kinds (9+81+729) x 6 deltas x 4 placements; every byte-prefix of 3 well-formed "
+    return ("record sequences of length 1..3 over 9 kinds (9+81+729) x 6 deltas x 5 placements (+ repeat); every byte-prefix of 3 well-formed "
             "files + 6 header/EOF variants")
 
 
@@ -111,12 +112,25 @@ def run_seq(prefix):
                 dtext = f"0-{-dval}"
             for place in PLACES:
                 directive = f".include_ips 'p.ips', {dtext}\n"
-                src = "dd := 0x20\n" + host(place, directive)
+                expected = [(o + dval, p) for o, p, _ in parsed]
+                if place == "twice":
+                    # the same file included twice in one program, with different deltas
+                    src = "dd := 0x20\n" + host("between", directive) + f".include_ips 'p.ips', {dtext}+0x1000\n"
+                    expected = expected + [(o + dval + 0x1000, p) for o, p, _ in parsed]
+                else:
+                    src = "dd := 0x20\n" + host(place, directive)
                 out = impl.assemble(src, rom="low_rom", files={"p.ips": data})
                 evals += 1
                 if special or dval != 0:
                     nt += 1
-                expected = [(o + dval, p) for o, p, _ in parsed]
+                if place == "between" and out.accepted:
+                    # the same program again in the same process, file untouched: identical writer calls
+                    again = impl.assemble(src, rom="low_rom")
+                    evals += 1
+                    if again.blocks != out.blocks or again.status != out.status:
+                        viol.append({"key": "include_ips:not-repeatable", "msg": f"kinds={[KINDS[k] for k in kinds]} delta={dtext}: second assembly of the same program in the same process differs"})
+                        outcomes.add("NOT-REPEATABLE")
+                        continue
                 neg = any(a < 0 for a, _ in expected)
                 desc = f"kinds={[KINDS[k] for k in kinds]} delta={dtext} place={place}"
                 if not out.accepted:
